@@ -90,6 +90,24 @@ type Sorts struct {
 	// concrete types per interface (qualified name -> list of types)
 	ifaceImpls map[string][]types.Type
 	typeNames  map[string]string // types.Type string -> sort (cache)
+	extraDefs  []string
+	extraSeen  map[string]bool
+}
+
+// CatPred returns the name of the concatenation predicate for a slice sort, defining it on first use:
+// (slcat.S r s t) <=> r is the concatenation of s and t (the meaning of append(s, t...)).
+func (ss *Sorts) CatPred(sort string) string {
+	name := "slcat." + sort
+	if ss.extraSeen == nil {
+		ss.extraSeen = map[string]bool{}
+	}
+	if !ss.extraSeen[name] {
+		ss.extraSeen[name] = true
+		ss.extraDefs = append(ss.extraDefs, fmt.Sprintf(
+			"(define-fun %s ((r %s) (s %s) (t %s)) Bool (and (= (%s.len r) (+ (%s.len s) (%s.len t))) (forall ((j Int)) (! (=> (and (<= 0 j) (< j (+ (%s.len s) (%s.len t)))) (= (select (%s.arr r) j) (ite (< j (%s.len s)) (select (%s.arr s) j) (select (%s.arr t) (- j (%s.len s)))))) :pattern ((select (%s.arr r) j))))))",
+			name, sort, sort, sort, sort, sort, sort, sort, sort, sort, sort, sort, sort, sort, sort))
+	}
+	return name
 }
 
 func NewSorts() *Sorts {
@@ -369,6 +387,10 @@ func (ss *Sorts) Decls() string {
 			b.WriteString(d)
 			b.WriteString("\n")
 		}
+	}
+	for _, d := range ss.extraDefs {
+		b.WriteString(d)
+		b.WriteString("\n")
 	}
 	return b.String()
 }
